@@ -14,6 +14,8 @@ from fractions import Fraction
 
 import numpy as np
 
+from pwlib.share import shcopy
+
 from pwlib.canon import flat
 from pwlib.engine import Case
 from pwlib.proto import Line
@@ -323,16 +325,16 @@ def make(spec):
                                     rotation_matrix_to_rodrigues_vector)
     jac = bool(spec["jac"])
     if spec["op"] == "fwd":
-        arr = np.array(spec["r"], dtype=np.float64).reshape(spec["shape"])
+        arr = np.array(np.reshape(spec["r"], spec["shape"]), dtype=np.float64)
         th = math.sqrt(sum(Fraction(float(x)) ** 2 for x in spec["r"]))
         if th != 0 and abs(th - EPS) < 1e-3 * EPS:
             return None
         if spec["via"] == "cv2":
             line = arr_line("rod.cv2", jac, arr).vec(np.eye(3))
-            impl = lambda: canon_cv2(cv2_rodrigues(arr.copy(), calculate_jacobian=jac), jac)
+            impl = lambda: canon_cv2(cv2_rodrigues(shcopy(arr), calculate_jacobian=jac), jac)
         else:
             line = arr_line("rod.fwd", jac, arr)
-            impl = lambda: canon_fwd(rodrigues_vector_to_rotation_matrix(arr.copy(), calculate_jacobian=jac), jac)
+            impl = lambda: canon_fwd(rodrigues_vector_to_rotation_matrix(shcopy(arr), calculate_jacobian=jac), jac)
         klass = "fwd/%s/%s/%s/%s" % (spec["stream"], "x".join(map(str, spec["shape"])), "jac" if jac else "nojac", spec["via"])
         c = Case(spec, line, impl, mode="float", klass=klass, scale=1.0)
         c.oracle = lambda _r: oracle_fwd(np.array(spec["r"], dtype=np.float64), spec["shape"])
@@ -343,10 +345,10 @@ def make(spec):
         br, _ok = branch_of_matrix(R)
         if spec["via"] == "cv2":
             line = arr_line("rod.cv2", jac, R).vec(P)
-            impl = lambda: canon_cv2(cv2_rodrigues(R.copy(), calculate_jacobian=jac), jac)
+            impl = lambda: canon_cv2(cv2_rodrigues(shcopy(R), calculate_jacobian=jac), jac)
         else:
             line = arr_line("rod.inv", jac, R).vec(P)
-            impl = lambda: canon_fwd(rotation_matrix_to_rodrigues_vector(R.copy(), calculate_jacobian=jac), jac)
+            impl = lambda: canon_fwd(rotation_matrix_to_rodrigues_vector(shcopy(R), calculate_jacobian=jac), jac)
         klass = "inv/%s/%s/%s/%s" % (spec["stream"], br, "jac" if jac else "nojac", spec["via"])
         c = Case(spec, line, impl, mode="float", klass=klass, scale=1.0)
         if spec["mat"]["m"] != "raw" or spec["mat"].get("rotation"):
@@ -360,9 +362,9 @@ def make(spec):
         if spec["fn"] != "fwd":
             line = line.vec(np.eye(3))
         if spec["fn"] == "cv2":
-            impl = lambda: canon_cv2(fn(arr.copy(), calculate_jacobian=jac), jac)
+            impl = lambda: canon_cv2(fn(shcopy(arr), calculate_jacobian=jac), jac)
         else:
-            impl = lambda: canon_fwd(fn(arr.copy(), calculate_jacobian=jac), jac)
+            impl = lambda: canon_fwd(fn(shcopy(arr), calculate_jacobian=jac), jac)
         c = Case(spec, line, impl, mode="float", klass="bad/%s/%s" % (spec["fn"], "x".join(map(str, spec["shape"])) or "scalar"),
                  trivial=True, scale=1.0)
         c.oracle = lambda r: oracle_bad(spec, r)
@@ -398,9 +400,9 @@ def _oracle_fwd(r, shape):
                                     rotation_matrix_to_rodrigues_vector)
     out = []
     arr = r.reshape(shape)
-    R, J = rodrigues_vector_to_rotation_matrix(arr.copy(), calculate_jacobian=True)
-    R0 = rodrigues_vector_to_rotation_matrix(arr.copy())
-    Rc = cv2_rodrigues(arr.copy())
+    R, J = rodrigues_vector_to_rotation_matrix(shcopy(arr), calculate_jacobian=True)
+    R0 = rodrigues_vector_to_rotation_matrix(shcopy(arr))
+    Rc = cv2_rodrigues(shcopy(arr))
     desc = "r=%r shape=%s" % (r.tolist(), tuple(shape))
     if R.shape != (3, 3) or J.shape != (3, 9):
         return [("fwd/shape", "%s: result shapes %s %s" % (desc, R.shape, J.shape))]
@@ -479,9 +481,9 @@ def _oracle_inv(R, ms):
     e = float(np.abs(P - R).max())
     if not e <= 1e-13:
         out.append(("svd/contract", "%s: |u.v - R| = %g on a proper rotation" % (desc, e)))
-    w, J = rotation_matrix_to_rodrigues_vector(R.copy(), calculate_jacobian=True)
-    w0 = rotation_matrix_to_rodrigues_vector(R.copy())
-    wc = cv2_rodrigues(R.copy())
+    w, J = rotation_matrix_to_rodrigues_vector(shcopy(R), calculate_jacobian=True)
+    w0 = rotation_matrix_to_rodrigues_vector(shcopy(R))
+    wc = cv2_rodrigues(shcopy(R))
     if w.shape != (3, 1) or J.shape != (9, 3):
         return [("inv/shape", "%s: result shapes %s %s" % (desc, w.shape, J.shape))]
     if not (np.array_equal(w, w0, equal_nan=True) and np.array_equal(w, wc, equal_nan=True)):
